@@ -90,10 +90,38 @@ theorem spec_verdict_nested_ok' (w : World) (t : FdTable) (outer : List Redir) (
       simp only [Bool.not_false, Bool.true_and, c1, Bool.not_true, Bool.false_eq_true, ↓reduceIte, c2, c3, c4, c5]
 
 
+theorem ioBody_ofds_len (w : World) (t : FdTable) (wr : Bool) (fd : Fd) (arg : Nat) :
+    (ioBody w t wr fd arg).1.ofds.length = w.ofds.length := by
+  unfold ioBody
+  cases t.get fd with
+  | none => rfl
+  | some e =>
+    simp only
+    cases wr with
+    | true =>
+      simp only [if_true]
+      cases hw : w.write e.ofd [arg] with
+      | none => rfl
+      | some w1 => exact write_ofds_len w w1 _ _ hw
+    | false =>
+      simp only [Bool.false_eq_true, if_false]
+      cases hr : w.read e.ofd arg with
+      | none => rfl
+      | some p => obtain ⟨w1, bs⟩ := p; exact read_ofds_len w w1 _ _ bs hr
+
 theorem runCmd_bounded (w : World) (t : FdTable) (prev : Nat) (c : Cmd) (hw : WF t) (hb : Bounded w t) :
     Bounded (runCmd w t prev c).tr.w (runCmd w t prev c).tr.t := by
   cases c with
   | plain k rs => exact runCommand_bounded w t k rs prev hw hb
+  | io wr fd arg rs =>
+    simp only [runCmd]
+    rcases runIO_cases w t wr fd arg rs prev with ⟨_, h⟩ | ⟨_, h1, h2⟩
+    · rw [h]; exact runCommand_bounded w t .regular rs prev hw hb
+    · rw [h1, h2]
+      have hlen : w.ofds.length ≤
+          (ioBody (performRedirs worldOracle w t rs).w (performRedirs worldOracle w t rs).t wr fd arg).1.ofds.length := by
+        rw [ioBody_ofds_len]; exact (performRedirs_inv worldOracle_stable w t rs).2.2.2.1
+      exact (hb.mono hlen).congr (undo_restores worldOracle w t rs hw).2
   | nested outer ki inner =>
     simp only [runCmd]
     cases hin : (runNested w t outer ki inner prev).inner with
@@ -127,6 +155,20 @@ theorem spec_verdict_cmd_ok' (w : World) (t : FdTable) (prev : Nat) (c : Cmd) (h
     specVerdictCmd t c (runCmd w t prev c) = "ok" := by
   cases c with
   | plain k rs => exact spec_verdict_ok w t k rs prev hw hb
+  | io wr fd arg rs =>
+    simp only [runCmd, specVerdictCmd]
+    rcases runIO_cases w t wr fd arg rs prev with ⟨h0, h⟩ | ⟨h0, h1, _⟩
+    · have hn : (runIO w t wr fd arg rs prev).io.isNone = true := by rw [h0]; rfl
+      simp only [hn, if_true]
+      rw [h]
+      exact spec_verdict_ok w t .regular rs prev hw hb
+    · have hn : (runIO w t wr fd arg rs prev).io.isNone = false := by
+        cases hio : (runIO w t wr fd arg rs prev).io with
+        | none => rw [hio] at h0; cases h0
+        | some _ => rfl
+      have hs : sameTable t (runIO w t wr fd arg rs prev).tr.t = true := by
+        rw [sameTable_iff, h1]; exact fun fd' => ((undo_restores worldOracle w t rs hw).2 fd').symm
+      simp [hn, hs]
   | nested outer ki inner => exact spec_verdict_nested_ok' w t outer ki inner prev hw hb
 
 theorem script2_spec_ok_aux (cmds : List Cmd) :
